@@ -352,7 +352,7 @@ func (ip *FileIP) WriteAuditLogToFile() {
 	auditInfo := ip.AuditInfo()
 	auditInfoJSON, jsonErr := json.MarshalIndent(auditInfo, "", "    ")
 	CheckWithMsg(jsonErr, "Could not marshall JSON")
-	ip.createDirs("")
+	createDirs(ip.AuditFilePath())
 	writeErr := ioutil.WriteFile(ip.AuditFilePath(), auditInfoJSON, 0644)
 	CheckWithMsg(writeErr, "Could not write audit file: "+ip.Path())
 }
